@@ -753,19 +753,19 @@ def classify(case):
 
 
 SUBCHECKS = [
-    SubCheck('reference', free_case(), check_reference, classify, quick=1600,
+    SubCheck('reference', free_case(), check_reference, classify, quick=1400, thorough=20000,
              doc='every pair value == explicit-loop average over admissible observation pairs '
                  '(six methods, both weightings, NaN masks, folds), labels in order of first '
                  'appearance; int==float, C==Fortran, channel missing everywhere == deleted; '
                  'agreement with calc_rdm when the drawn design demands it'),
-    SubCheck('agreement', agree_case(), check_agree, classify, quick=1000,
+    SubCheck('agreement', agree_case(), check_agree, classify, quick=900, thorough=12000,
              doc='designs where theory demands it: calc_rdm_unbalanced == calc_rdm by label and == own '
                  'formula (one observation per condition: four methods; any repetitions: euclidean, '
                  'mahalanobis; fold-balanced: crossnobis; one per condition and fold: poisson_cv)'),
-    SubCheck('single_pair', free_case(), check_pair, classify, quick=1200,
+    SubCheck('single_pair', free_case(), check_pair, classify, quick=1000, thorough=12000,
              doc='calc_one_similarity per condition pair == oracle average, and s_aa+s_bb-2s_ab == '
                  'full computation'),
-    SubCheck('undefined_self', undefined_case(), check_undefined, classify, quick=600,
+    SubCheck('undefined_self', undefined_case(), check_undefined, classify, quick=500, thorough=6000,
              doc='conditions without any admissible within-condition product (confined to one fold, '
                  'single observation under cross-validation, all channels missing): NaN exactly for '
                  'pairs involving them, all other pairs keep their value'),
